@@ -170,6 +170,20 @@ def generate(seed, tier):
         o['both_initiate'] = False
     sc = workload.pair_scenario(seed, PROP, o)
     sc['meta']['batch'] = 'lossy' if lossy else 'lossless'
+    if r.random() < 0.12:
+        # the two ends disagree on the mode of a host-to-host entry (tunnel here, transport there; same selectors): whatever comes of the
+        # negotiation - it has to be refused - no pair of SAs that differ in mode may come of it
+        ca_, cb_ = sc['nodes']['A']['conf']['to-b'], sc['nodes']['B']['conf']['to-a']
+        for pa in ca_['protect']:
+            if pa.get('my_subnet') or pa.get('peer_subnet'):
+                continue
+            for pb in cb_['protect']:
+                if pb.get('mode') == pa.get('mode') and not pb.get('my_subnet') and not pb.get('peer_subnet') and pb.get('my_port') == pa.get('peer_port') \
+                        and pb.get('peer_port') == pa.get('my_port') and pb.get('ip_proto') == pa.get('ip_proto'):
+                    side = r.choice([pa, pb])
+                    side['mode'] = 'transport' if side.get('mode') == 'tunnel' else 'tunnel'
+                    sc['meta']['mode_drift'] = True
+                    break
     if refpeer:
         workload.to_refpeer(sc, r, {'invalid_ke_on_ike_rekey': True})
         return sc
